@@ -20,6 +20,8 @@ Media == {"json", "ndjson", "any", "other", "malformed", "jsonq"}      \* jsonq 
 Headers == UNION {[1..n -> UNION {[1..k -> Media] : k \in 1..MaxTypes}] : n \in 0..MaxHeaders}
 PathKinds == {"mh-b58", "mh-hex", "cid", "other-type", "no-type", "bad-key", "not-a-multihash",
               "mh-b58-hexlike",    \* a base58 key that happens to consist of hex digits only (short identity multihashes give such keys): base58 is tried first
+              "mh-b58-long",       \* an identity multihash of 100 bytes of data in base58 (a key of some 140 characters)
+              "mh-hex-long",       \* an identity multihash of 70 bytes of data in hex (144 characters): a multihash is as long as its digest
               "double-slash",      \* /multihash//<key>: the empty segment is cleaned away
               "empty-path"}        \* request target without any path (absolute form "GET http://host HTTP/1.1")
 
@@ -42,7 +44,7 @@ Negotiate(hs, prefer) ==
   ELSE IF Len(hs) = 0 THEN (IF prefer THEN "json" ELSE "err400")
   ELSE IF ~st.ok /\ ~st.nd THEN "err400"
   ELSE IF st.nd THEN "ndjson" ELSE "json"
-KeyOk(pk) == pk \in {"mh-b58", "mh-hex", "cid", "double-slash", "mh-b58-hexlike"}
+KeyOk(pk) == pk \in {"mh-b58", "mh-hex", "cid", "double-slash", "mh-b58-hexlike", "mh-b58-long", "mh-hex-long"}
 Outcome(hs, prefer, pk) == LET n == Negotiate(hs, prefer) IN IF n = "err400" \/ ~KeyOk(pk) THEN "err400" ELSE n
 
 Flat(hs) == UNION {{hs[i][j] : j \in 1..Len(hs[i])} : i \in 1..Len(hs)}
